@@ -235,6 +235,34 @@ mod imp {
     pub fn shape_len(k: usize, n: usize) -> Outcome<(usize, bool)> {
         catch(|| shape!(k, n, |it| (TrustedLen::len(&it), TrustedLen::is_empty(&it))))
     }
+    /// the shape advanced by `nth(j)` first (an adaptor may override `nth` differently from `next`; round 11):
+    /// (nth returned an item, TrustedLen::len afterwards, items still yielded by next()), and the same iterator
+    /// written into a Vec buffer of exactly the remaining length: (Ok?, slots)
+    pub fn shape_after_nth(k: usize, n: usize, j: usize) -> Outcome<(bool, usize, Vec<Cell>, bool, Vec<Cell>)> {
+        catch(|| {
+            let (some, len_after, rest) = shape!(k, n, |it| {
+                let mut it = it;
+                let item = it.nth(j);
+                let l = TrustedLen::len(&it);
+                let mut rest = vec![];
+                while let Some(x) = it.next() {
+                    rest.push(Cell::F(x));
+                }
+                (item.is_some(), l, rest)
+            });
+            let remaining = n.saturating_sub(j + 1);
+            let mut buf = <Vec<f64> as Vec1<f64>>::uninit(remaining);
+            let ok = {
+                let mut out = <Vec<f64> as Vec1<f64>>::uninit_ref_mut(&mut buf);
+                shape!(k, n, |it| {
+                    let mut it = it;
+                    let _ = it.nth(j);
+                    it.write(&mut out).is_ok()
+                })
+            };
+            (some, len_after, rest, ok, if ok { unsafe { buf.assume_init() }.cells() } else { vec![] })
+        })
+    }
     /// the collectors on that shape
     pub fn shape_collect(k: usize, n: usize) -> Vec<(&'static str, Outcome<Vec<Cell>>)> {
         vec![
@@ -884,6 +912,18 @@ fn check_shapes(ctx: &mut Ctx, max_len: usize) {
             if !matches!(&l, Outcome::Ok((len, empty)) if *len == n && *empty == (n == 0)) {
                 viol(ctx, "TrustedLen::len / is_empty", None, case(json!({})), format!("({n}, {})", n == 0), format!("{l:?}"));
             }
+            for j in 0..=n.min(3) {
+                let got = shape_after_nth(k, n, j);
+                ctx.evals += 1;
+                ctx.transitions += 1;
+                let remaining = n.saturating_sub(j + 1);
+                let rest: Vec<Cell> = seq.iter().skip(j + 1).cloned().collect();
+                // a one-item remainder is broadcast, an empty one into an empty buffer is fine
+                let ok = matches!(&got, Outcome::Ok((some, l, r, wrote, cells)) if *some == (j < n) && *l == remaining && cells_eq(r, &rest, exact_eq) && *wrote && cells_eq(cells, &rest, exact_eq));
+                if !ok {
+                    viol(ctx, "after nth(j): len / items / write", None, case(json!({"nth": j})), format!("(item: {}, len {remaining}, items {}, written Ok {})", j < n, show_cells(&rest), show_cells(&rest)), truncate(&format!("{got:?}"), 240));
+                }
+            }
             for (cname, got) in shape_collect(k, n) {
                 ctx.eval(fam, outcome_hash(&got));
                 ctx.transitions += 1;
@@ -995,7 +1035,7 @@ fn main() {
     ctx.sample(json!({"collector": "try_collect_trusted_vec1", "container": "Array", "list_len": 4, "errors_at": [1, 3], "model": "Err(e1)"}));
     ctx.sample(json!({"buffer": "write_trust_iter", "buffer_len": 3, "iter_len": 1, "model": "[10,10,10] (broadcast)"}));
     let meta = Meta {
-        rule: "finite products: range(start,end,step) over integer grids (i32, i64, usize, u64; start,end in -B..=B, steps +-1..4) and the dyadic float grid (multiples of 1/4), linspace(start,end,n) n in 0..=9, full / empty, every collector (plain, trusted, with length, optional -> null-encoded, fallible plain / trusted with an error at every position and every pair of positions) on lists of length 0..=L into every container (instrumented, Vec, VecDeque, Array1, Polars chunked), write_trust_iter for every (buffer length, iterator length) pair on an instrumented buffer (exactly-once monitor) and on the real buffers. Oracles: the arithmetic progression strictly before end; n equally spaced points; the list itself; first error; all slots = iterator / broadcast or error and no write. Non-trivial = distinct parameter points. Also the same sequence through all 19 iterator shapes the library declares trusted (iterator-shapes): TrustedLen::len / is_empty, the collectors, writes into every container and caller-buffer layout (equal length, broadcast, mismatch; DESIGN 5.15). Round 8 (DESIGN 5.17): range-defaults - every combination of omitted / explicit start and step (i32, usize, f64, f32, every container) against the progression from 0 with step 1; linspace with the start omitted. Round 10 (DESIGN 5.19): collectors-typed - the four collectors into Vec / VecDeque / Array1 of i32, i64, usize, u64, u8, bool, f32, f64, String, Option<i64>; the optional collector with missing items only for types that have a null.".into(),
+        rule: "finite products: range(start,end,step) over integer grids (i32, i64, usize, u64; start,end in -B..=B, steps +-1..4) and the dyadic float grid (multiples of 1/4), linspace(start,end,n) n in 0..=9, full / empty, every collector (plain, trusted, with length, optional -> null-encoded, fallible plain / trusted with an error at every position and every pair of positions) on lists of length 0..=L into every container (instrumented, Vec, VecDeque, Array1, Polars chunked), write_trust_iter for every (buffer length, iterator length) pair on an instrumented buffer (exactly-once monitor) and on the real buffers. Oracles: the arithmetic progression strictly before end; n equally spaced points; the list itself; first error; all slots = iterator / broadcast or error and no write. Non-trivial = distinct parameter points. Also the same sequence through all 19 iterator shapes the library declares trusted (iterator-shapes): TrustedLen::len / is_empty, the collectors, writes into every container and caller-buffer layout (equal length, broadcast, mismatch; DESIGN 5.15). Round 8 (DESIGN 5.17): range-defaults - every combination of omitted / explicit start and step (i32, usize, f64, f32, every container) against the progression from 0 with step 1; linspace with the start omitted. Round 10 (DESIGN 5.19): collectors-typed - the four collectors into Vec / VecDeque / Array1 of i32, i64, usize, u64, u8, bool, f32, f64, String, Option<i64>; the optional collector with missing items only for types that have a null. Round 11 (DESIGN 5.20): every iterator shape advanced by nth(j) first: nth's result, TrustedLen::len afterwards, the items still delivered, and a write into a buffer of exactly the remaining length.".into(),
         bounds: json!({"B": bound, "L": max_len}),
         assumptions: vec!["float ranges on dyadic grids only (DESIGN 5.7)".into(), "the default Vec1::try_collect_from_iter (unwrap) of the instrumented container is not driven".into()],
         exhaustive: true,
